@@ -19,6 +19,7 @@ EXPLANATION = (
     "managers wrap the yield in a handler for every exception (bare / BaseException) that restores the backup and re-raises, "
     "and remove the backup in a finally; (e) FileSync.always / never return the constants True / False, FileSync.update "
     "returns mtime(source) > mtime(destination) strictly, DocSync.update stores every source key into the destination."
+    ' The backup context of the document merge is not wrapped in buffered mode.'
 )
 UNDECIDED = "The 'iff' for every conflict shape and exact equality of the document with its pre-sync content after a roll-back are not decided."
 
